@@ -9,3 +9,6 @@ open Rpylib.Alloc Rpylib.Mlmc
 #print axioms run_never_above_max
 #print axioms iter_ret_only_if
 #print axioms fallthrough_counterexample
+#print axioms potential_le
+#print axioms iter_progress
+#print axioms run_terminates
